@@ -633,3 +633,47 @@ impl BtreeBuilder {
             .with_accessor(BtreeWriteAccessor::new())
     }
 }
+
+/// Verification hooks (feature `verif`, add-only): read-only peeks used by `crate::verif` to dump the page graph
+/// without disturbing the cache (no frame is inserted, evicted or marked dirty).
+#[cfg(feature = "verif")]
+impl Pager {
+    /// Kind of the frame currently cached for `id`: 0 = btree, 1 = overflow/free, 2 = page zero; `None` = not cached.
+    pub(crate) fn verif_cached_kind(&self, id: PageId) -> Option<u8> {
+        self.cache.get(&id).map(|f| {
+            if f.is_btree() {
+                0
+            } else if f.is_overflow() {
+                1
+            } else {
+                2
+            }
+        })
+    }
+
+    /// Raw bytes of page `id` as the pager currently sees it: the cached frame if there is one (fails with
+    /// `WouldBlock` while somebody holds its write latch), else the bytes on disk, read without caching.
+    pub(crate) fn verif_page_bytes(&mut self, id: PageId) -> io::Result<(Option<u8>, Vec<u8>)> {
+        use crate::multithreading::frames::MemFrame;
+        let busy = || IoError::new(ErrorKind::WouldBlock, "page is write-latched");
+        if let Some(frame) = self.cache.get(&id) {
+            let kind = self.verif_cached_kind(id);
+            let bytes = match &frame {
+                MemFrame::Btree(f) => f.inner.try_read().ok_or_else(busy)?.as_ref().to_vec(),
+                MemFrame::Overflow(f) => f.inner.try_read().ok_or_else(busy)?.as_ref().to_vec(),
+                MemFrame::Zero(f) => f.inner.try_read().ok_or_else(busy)?.as_ref().to_vec(),
+            };
+            return Ok((kind, bytes));
+        }
+        let page_size = self.page_size();
+        let mut block: MemBlock<crate::storage::page::OverflowPageHeader> = MemBlock::new(page_size);
+        self.read_block(id, block.as_mut(), page_size)?;
+        Ok((None, block.as_ref().to_vec()))
+    }
+
+    /// (first_free_page, last_free_page, total_pages, free_pages counter) of the in-memory header.
+    pub(crate) fn verif_free_list_header(&self) -> (Option<PageId>, Option<PageId>, u64, u32) {
+        let h = self.header_unchecked();
+        (h.first_free_page, h.last_free_page, h.total_pages, h.free_pages)
+    }
+}
